@@ -63,6 +63,8 @@ def build_world(shape):
     W['cfgs'] = [p.EnzymeConfig(['lys-c'], 0, False, True), p.EnzymeConfig('glu-c', 0, False, False)]
     W['dist1'] = [(100.0, 1.0), (101.0, 0.5)]
     W['dist2'] = [(101.0, 0.25), (102.0, 0.125)]
+    W['fragmenter'] = p.Fragmenter('SKSMK', True)
+    W['formula'] = 'C6H12O6'
     W['spans'] = [(0, 3, 0), (3, 6, 0), (0, 6, 1)]
     W['sites'] = [3, 6]
     return W
@@ -127,7 +129,22 @@ def L(p):
     t['fragment-losses'] = lambda W: p.fragment(W[A], 'b', 1, losses=W['losses'], water_loss=True, ammonia_loss=True)
     t['fragment-mz'] = lambda W: p.fragment(W[A], ['y', 'by', 'i'], [1], return_type='mz-label')
     t['Fragmenter'] = lambda W: p.Fragmenter(W[A]).fragment(['b'], [1], losses=W['losses'], water_loss=True)
+    t['fragment-avg'] = lambda W: p.fragment(W[A], ['a', 'b', 'y'], [1], monoisotopic=False)
+    t['fragment-mono-aby'] = lambda W: p.fragment(W[A], ['a', 'b', 'y'], [1])
+    # one shared Fragmenter object, called with different options
+    t['shared-Fragmenter-ml1'] = lambda W: W['fragmenter'].fragment(['b', 'y'], [1], water_loss=True)
+    t['shared-Fragmenter-ml2'] = lambda W: W['fragmenter'].fragment(['b', 'y'], [1], water_loss=True, max_losses=2)
+    t['shared-Fragmenter-z2'] = lambda W: W['fragmenter'].fragment(['b', 'y'], [2], water_loss=True)
+    t['shared-Fragmenter-iso'] = lambda W: W['fragmenter'].fragment(['b', 'y'], [1], isotopes=[0, 1], return_type='mz')
     # ---- mass / composition
+    t['parse_chem_formula-str'] = lambda W: p.parse_chem_formula(W['formula'])
+    t['chem_mass-str'] = lambda W: p.chem_mass(W['formula'])
+    t['apply_isotope_mods_to_composition-str'] = lambda W: p.apply_isotope_mods_to_composition(W['formula'], W['labels2'])
+    t['mod_comp-str'] = lambda W: (p.mod_comp('Formula:' + W['formula']), p.mod_comp('Acetyl'), p.mod_comp('Glycan:Hex'))
+    t['mass-formula-mod'] = lambda W: (p.mass('PEK[Formula:C6H12O6]'), p.comp('PEK[Formula:C6H12O6][Acetyl]'))
+    t['mod_mass-str'] = lambda W: (p.mod_mass('Acetyl'), p.mod_mass('Formula:C6H12O6', False), p.mod_mass('M:00719'))
+    t['parse_glycan_formula'] = lambda W: (p.parse_glycan_formula('HexNAc2Hex3'), p.glycan_comp('HexNAc2Hex3'))
+    t['parse'] = lambda W: p.parse(SHAPES[0])
     t['mass'] = lambda W: p.mass(W[A])
     t['mass-b'] = lambda W: p.mass(W[A], charge=1, ion_type='b', monoisotopic=False)
     t['mass-labels'] = lambda W: p.mass(W[A], isotope_mods=W['labels2'])
@@ -215,7 +232,7 @@ def labels():
 
 
 # labels known (by reading) to touch caller-owned objects or global state: first/second element of thorough triples
-TOUCHY = ['split', 'A.split', 'permutations', 'A.permutations', 'product', 'combinations', 'combinations_with_replacement',
+TOUCHY = ['shared-Fragmenter-ml2', 'fragment-avg', 'apply_isotope_mods_to_composition-str', 'mod_comp-str', 'split', 'A.split', 'permutations', 'A.permutations', 'product', 'combinations', 'combinations_with_replacement',
           'fragment', 'fragment-losses', 'Fragmenter', 'condense_to_mass_mods', 'isotopic_distribution',
           'get_fragment_matches', 'shuffle-seed', 'A.shuffle-seed', 'fix_list_of_mods', 'create_annotation',
           'create_annotation-raw', 'comp_mass', 'count_residues', 'apply_static_mods', 'apply_variable_mods',
@@ -229,6 +246,7 @@ def describe(tier):
 
 def shards(tier):
     names = list(labels())
+    isolated_baselines([(sh, n) for sh in range(len(SHAPES)) for n in names])   # inherited by the worker processes
     out = []
     for sh in range(len(SHAPES)):
         out.append({'shape': sh, 'kind': 'single'})
@@ -259,6 +277,16 @@ def canon(x):
     return lib.jkey(lib.dump(x))
 
 
+def canon_world(W):
+    """snapshot of the shared objects.  Of the Fragmenter only what the caller gave it is observable state (a correct
+    implementation may memoise inside the object)."""
+    V = dict(W)
+    fr = V.pop('fragmenter', None)
+    if fr is not None:
+        V['fragmenter'] = [getattr(fr, 'annotation', None), getattr(fr, 'monoisotopic', None)]
+    return canon(V)
+
+
 def run_label(fn, W):
     try:
         r = fn(W)
@@ -272,15 +300,44 @@ def run_label(fn, W):
 _baseline = {}
 
 
+def _compute_baseline(shape, name):
+    W = build_world(shape)
+    s, r = run_label(labels()[name], W)
+    return canon(r) if s == 'ok' else 'EXC:' + type(r).__name__
+
+
+def isolated_baselines(keys):
+    """Reference result of each (shape, label) on a fresh world, each computed in its OWN forked child process, so that
+    hidden process-wide state left behind by one label (a module-level cache, a memo) cannot leak into another label's
+    reference."""
+    import os
+    import pickle
+    out = {}
+    for (shape, name) in keys:
+        if (shape, name) in _baseline:
+            continue
+        r, w = os.pipe()
+        pid = os.fork()
+        if pid == 0:
+            try:
+                os.close(r)
+                data = pickle.dumps(_compute_baseline(shape, name))
+                with os.fdopen(w, 'wb') as f:
+                    f.write(data)
+            finally:
+                os._exit(0)
+        os.close(w)
+        with os.fdopen(r, 'rb') as f:
+            data = f.read()
+        os.waitpid(pid, 0)
+        _baseline[(shape, name)] = pickle.loads(data)
+    return out
+
+
 def baseline(shape, name):
-    k = (shape, name)
-    if k not in _baseline:
-        st = random.getstate()
-        W = build_world(shape)
-        s, r = run_label(labels()[name], W)
-        _baseline[k] = canon(r) if s == 'ok' else 'EXC:' + type(r).__name__
-        random.setstate(st)
-    return _baseline[k]
+    if (shape, name) not in _baseline:
+        isolated_baselines([(shape, name)])
+    return _baseline[(shape, name)]
 
 
 def mutate(obj, seen, depth=0):
@@ -319,14 +376,15 @@ def mutate(obj, seen, depth=0):
 def check(case, ctx):
     p = lib.pt()
     tab = labels()
+    isolated_baselines([(case['shape'], n) for n in case['hist']])   # before the history touches the process
     W = build_world(case['shape'])
-    snap0 = canon(W)
+    snap0 = canon_world(W)
     rnd0 = random.getstate()
     last = None
     for step, name in enumerate(case['hist']):
         st, r = run_label(tab[name], W)
         ctx.evals += 1
-        snap = canon(W)
+        snap = canon_world(W)
         where = {'history': case['hist'][:step + 1], 'shape': case['shape'], 'call': name, 'step': step}
         if snap != snap0:
             ctx.fail('argument-changed', 'world unchanged', _first_diff(snap0, snap), **where)
@@ -346,7 +404,7 @@ def check(case, ctx):
     # aliasing: editing the last result must not reach the arguments
     if last is not None:
         mutate(last, set())
-        snap = canon(W)
+        snap = canon_world(W)
         if snap != snap0:
             ctx.fail('result-aliases-argument', 'world unchanged after editing the result', _first_diff(snap0, snap),
                      history=case['hist'], shape=case['shape'], call=case['hist'][-1], step=len(case['hist']) - 1)
